@@ -396,6 +396,17 @@ static void blk_zuc(void) {
 			size_t nby = nbits / 8, rb = nbits % 8; for (size_t c = 0; c <= nby; c++) { ZUC_MAC_CTX mc; uint8_t mac[4]; zuc_mac_init(&mc, KEYS[k], iv2); if (c) zuc_mac_update(&mc, msg, c); if (nby - c) zuc_mac_update(&mc, msg + c, nby - c); zuc_mac_finish(&mc, msg + nby, rb, mac);
 				uint32_t g = ((uint32_t)mac[0] << 24) | (mac[1] << 16) | (mac[2] << 8) | mac[3]; vh_eval(vh_hash(&c, 8, nbits * 8 + k + 81)); if (g != T) { vh_viol("C04:zuc:mac-stream", "\"nbits\":%zu,\"cut\":%zu,\"got\":\"%08x\",\"exp\":\"%08x\"", nbits, c, g, T); break; } } }
 	}
+	/* ZUC-256 MAC, tags of 32 / 64 / 128 bits, every bit length 0..300: tag = z[0..t) ^ XOR over set message bits i of the t-bit keystream window at
+	   bit t+i ^ the window at t+nbits (keystream continued from the MAC context's own state). One-shot finish(msg, nbits), every whole-octet cut
+	   update(msg, c) + finish(msg + c, nbits - 8c) - i.e. finish is also handed more than 8 bits at an odd length - and update(all octets) + finish(rest). */
+	for (int k = 0; k < 3; k++) for (int mb = 0; mb < 3; mb++) for (size_t nbits = 0; nbits <= 300; nbits++) {
+		if (!vh_next()) continue; if (!vh_thorough && nbits > 80 && (nbits % 8) > 1 && (nbits % 8) < 7 && (nbits % 32) != 9) continue;
+		static const int MB[3] = { 32, 64, 128 }; int t = MB[mb]; size_t n = t / 32; uint8_t k256[32], iv256[23], msg[48]; memcpy(k256, KEYS[k], 16); memcpy(k256 + 16, KEYS[(k + 1) % 3], 16); memcpy(iv256, PT + 60 + k, 23); for (int i = 17; i < 23; i++) iv256[i] &= 0x3f; for (int i = 0; i < 48; i++) msg[i] = (uint8_t)(0x9e * (i + 1) + 0x37 * k + (i >> 2));
+		ZUC256_MAC_CTX mc; zuc256_mac_init(&mc, k256, iv256, t); uint32_t z[2 * 4 + 12 + 6]; memcpy(z, mc.T, 4 * n); memcpy(z + n, mc.K0, 4 * n); { ZUC256_STATE st; memcpy(&st, &mc, sizeof st); size_t more = (nbits + 31) / 32 + n + 1; for (size_t i = 0; i < more; i++) z[2 * n + i] = zuc256_generate_keyword(&st); }
+		uint32_t T[4]; for (size_t j = 0; j < n; j++) T[j] = z[j]; for (size_t i = 0; i <= nbits; i++) { if (i < nbits && !((msg[i / 8] >> (7 - i % 8)) & 1)) continue; for (size_t j = 0; j < n; j++) T[j] ^= zbit32(z, (size_t)t + i + 32 * j); }
+		uint8_t exp[16], got[16]; for (size_t j = 0; j < n; j++) { exp[4 * j] = (uint8_t)(T[j] >> 24); exp[4 * j + 1] = (uint8_t)(T[j] >> 16); exp[4 * j + 2] = (uint8_t)(T[j] >> 8); exp[4 * j + 3] = (uint8_t)T[j]; }
+		size_t nby = nbits / 8; for (size_t c = 0; c <= nby + 1; c++) { zuc256_mac_init(&mc, k256, iv256, t); if (c <= nby) { if (c) zuc256_mac_update(&mc, msg, c); zuc256_mac_finish(&mc, msg + c, nbits - 8 * c, got); } else { /* two updates, then only the odd bits */ if (nby) { zuc256_mac_update(&mc, msg, nby / 2); zuc256_mac_update(&mc, msg + nby / 2, nby - nby / 2); } zuc256_mac_finish(&mc, msg + nby, nbits % 8, got); }
+			size_t kk[4] = { (size_t)k, (size_t)t, nbits, c }; vh_eval(vh_hash(kk, sizeof kk, 97)); if (memcmp(got, exp, (size_t)t / 8)) { char key[96]; snprintf(key, sizeof key, "C04:zuc256-mac%d:%s", t, c == 0 ? "one-shot-finish" : c <= nby ? "update+finish-with-whole-octets" : "stream"); vh_viol(key, "\"nbits\":%zu,\"octets_through_update\":%zu,\"got\":\"%s\",\"exp\":\"%s\"", nbits, c <= nby ? c : nby, vh_hex(got, (size_t)t / 8), vh_hex(exp, (size_t)t / 8)); break; } } }
 	/* zuc_encrypt for every length 0..70 against the keyword stream */
 	for (int k = 0; k < 3; k++) for (size_t n = 0; n <= 70; n++) { if (!vh_next()) continue; ZUC_STATE a, b; uint8_t o[80], e[80]; zuc_init(&a, KEYS[k], IVS[k]); zuc_init(&b, KEYS[k], IVS[k]); memset(o, 0xee, sizeof o); zuc_encrypt(&a, PT + 9, n, o);
 		for (size_t i = 0; i < n; i += 4) { uint32_t w = zuc_generate_keyword(&b); for (size_t j = 0; j < 4 && i + j < n; j++) e[i + j] = PT[9 + i + j] ^ (uint8_t)(w >> (24 - 8 * j)); }
